@@ -178,18 +178,43 @@ func matchValue(value interface{}, re *regexp.Regexp) bool {
 	return false
 }
 
-// scalarText is the text a scalar value is searched as: fmt's %v, except that a
-// float64 of magnitude 1e6 up to (not including) 1e15 is written positionally
-// ("1000000", "1234567.89") instead of in %v's exponent notation ("1e+06",
-// "1.23456789e+06"): that is how PostgreSQL prints numeric, float8 and JSON
-// numbers of that size, all of which are decoded to float64.
+// scalarText is the text a scalar value is searched as: the text PostgreSQL prints
+// for the value. For everything but floats that is fmt's %v.
 func scalarText(v interface{}) string {
-	if f, ok := v.(float64); ok {
-		if a := math.Abs(f); a >= 1e6 && a < 1e15 {
-			return strconv.FormatFloat(f, 'f', -1, 64)
-		}
+	switch f := v.(type) {
+	case float64:
+		return floatText(f, 64)
+	case float32:
+		return floatText(float64(f), 32)
 	}
 	return fmt.Sprintf("%v", v)
+}
+
+// floatText is the text of a float cell as PostgreSQL prints it: the shortest
+// digits that read back as the same value, and NaN, Infinity, -Infinity.
+//
+// A float64 is a numeric, a JSON/JSONB number or a float8 (all three are decoded
+// to float64). numeric and JSON numbers are printed positionally at every
+// magnitude ("1000000000000000", "0.00001"), and so are they searched; fmt's %v
+// would give "1e+15" and "1e-05". (float8 itself prints positionally for
+// exponents -4 to 14 only; a float8 outside that range is searched by its
+// positional digits too.)
+//
+// A float32 is always a float4, which PostgreSQL prints like C's %g with the
+// shortest digits: positionally for exponents -4 to 5, "1.234567e+06" beyond.
+func floatText(f float64, bitSize int) string {
+	switch {
+	case math.IsNaN(f):
+		return "NaN"
+	case math.IsInf(f, 1):
+		return "Infinity"
+	case math.IsInf(f, -1):
+		return "-Infinity"
+	}
+	if bitSize == 32 {
+		return strconv.FormatFloat(f, 'g', -1, 32)
+	}
+	return strconv.FormatFloat(f, 'f', -1, 64)
 }
 
 // matchMap recursively searches in a map
